@@ -3,7 +3,8 @@ EXTENDS CogLayout, CaseIO
 CONSTANTS MaxDim
 BlockLists == {<<16>>, <<32>>, <<48>>, <<32, 16>>, <<48, 32>>, <<20>>, <<64, 32, 16>>}
 \* write configurations: shapes incl. narrower than a tile and single row / column; the remaining options are a function of the case
-Shapes == {<<45, 70>>, <<1, 40>>, <<40, 1>>, <<10, 10>>, <<33, 17>>, <<64, 64>>, <<100, 37>>, <<16, 130>>, <<7, 90>>}
+\* flat-and-wide / tall-and-thin images: the layout rule pads the short side by whole TILES (rows / columns of tiles with no source pixel at all)
+Shapes == {<<45, 70>>, <<1, 40>>, <<40, 1>>, <<10, 10>>, <<33, 17>>, <<64, 64>>, <<100, 37>>, <<16, 130>>, <<7, 90>>, <<16, 512>>, <<7, 300>>, <<300, 5>>}
 Variants == << [axis |-> "YX", ns |-> 1, dtype |-> "uint8", comp |-> "deflate", nodata |-> <<>>, chunks |-> <<32, 32>>, spill |-> 0, wpc |-> 1],
                [axis |-> "YXS", ns |-> 3, dtype |-> "uint8", comp |-> "zstd", nodata |-> <<>>, chunks |-> <<16, 48>>, spill |-> 300, wpc |-> 2],
                [axis |-> "SYX", ns |-> 2, dtype |-> "int16", comp |-> "deflate", nodata |-> <<-999>>, chunks |-> <<32, 16>>, spill |-> 5000, wpc |-> 1],
@@ -35,7 +36,11 @@ BigCases == {[h |-> 200, w |-> 260, blocks |-> b] @@ BigVariants[k] @@ [vidx |->
 \* comparison is skipped for these, the contract on the file is the same)
 TupleCases == {[h |-> s[1], w |-> s[2], blocks |-> <<tb[Len(tb)][1]>>, tb |-> tb] @@ Variants[k] @@ [vidx |-> 200 + k] :
                  s \in {<<45, 70>>, <<100, 37>>, <<16, 130>>}, tb \in {<<<<32, 48>>>>, <<<<16, 64>>, <<16, 32>>>>, <<<<48, 16>>>>}, k \in {1, 2, 3, 5}}
-WriteCases == BigCases \cup TupleCases \cup {[h |-> s[1], w |-> s[2], blocks |-> b] @@ Variants[((s[1] + 3 * s[2] + Len(b) + b[1]) % Len(Variants)) + 1] @@ [vidx |-> k] : s \in Shapes, b \in BlockLists, k \in {0}}
+\* irregular source chunking (irr = "head": a short first chunk, then chunks of the given size - e.g. what is left after cropping a chunked array;
+\* "tile": as "head" with the chunk size equal to the full-resolution tile, so that the LARGEST chunk has the tile's size without being aligned)
+IrrCases == {[h |-> s[1], w |-> s[2], blocks |-> b, irr |-> ir] @@ Variants[k] @@ [vidx |-> 300 + k] :
+               s \in {<<45, 70>>, <<100, 37>>, <<64, 64>>}, b \in {<<32, 16>>, <<16>>, <<32>>}, ir \in {"head", "tile"}, k \in {1, 2, 3, 6}}
+WriteCases == BigCases \cup TupleCases \cup IrrCases \cup {[h |-> s[1], w |-> s[2], blocks |-> b] @@ Variants[((s[1] + 3 * s[2] + Len(b) + b[1]) % Len(Variants)) + 1] @@ [vidx |-> k] : s \in Shapes, b \in BlockLists, k \in {0}}
               \cup {[h |-> s[1], w |-> s[2], blocks |-> b] @@ Variants[k] @@ [vidx |-> k] : s \in {<<45, 70>>, <<1, 40>>, <<33, 17>>}, b \in {<<32, 16>>, <<16>>}, k \in 1..Len(Variants)}
 VARIABLE c
 Init == c \in {[k |-> b] : b \in BlockLists} \cup {[k |-> <<>>]}
